@@ -39,7 +39,7 @@ func verifServer(role int) (*Server, *litefs.Store, *litefs.DB) {
 	return s, store, db
 }
 
-var verifPaths = []string{"/export", "/halt", "/handoff", "/import", "/info", "/promote", "/stream", "/tx", "/nope"}
+var verifPaths = []string{"/export", "/halt", "/handoff", "/import", "/info", "/promote", "/stream", "/tx", "/events", "/nope"}
 var verifMethods = []string{"GET", "POST", "DELETE", "PUT"}
 
 // VerifC20Invalid: requests that are malformed, use a method the endpoint does
@@ -81,7 +81,9 @@ func VerifC20Invalid() {
 		valid = true // releasing a lock that is not held is a no-op anyway
 	case path == "/import" && method == "POST" && name != "" && role == 0:
 		valid = true // may create the database; body validity decides the rest
-	case path == "/stream" && method == "POST", path == "/promote" && method == "POST":
+	case path == "/stream" && method == "POST" && len(body) != 0:
+		valid = true // a body that may be a well-formed position map starts a stream: not explored here (C06)
+	case path == "/promote" && method == "POST":
 		valid = true // not explored here
 	}
 	// POST /tx is never valid here: no halt lock is held in this harness (the accepted case is VerifC13ForwardedTx)
@@ -90,14 +92,21 @@ func VerifC20Invalid() {
 	}
 	before := litefs.VerifSnapshotState(store)
 	w := &verifRW{}
-	s.serveHTTP(w, verifRequest(method, path, query, nodeHdr, body))
+	req := verifRequest(method, path, query, nodeHdr, body)
+	if path == "/events" {
+		// an event-stream client that has already gone away: the handler must return and leave nothing behind
+		ctx, cancel := context.WithCancel(context.Background())
+		cancel()
+		req = req.WithContext(ctx)
+	}
+	s.serveHTTP(w, req)
 	code := w.code
 	if code == 0 {
 		code = 200 // net/http answers 200 when a handler returns without writing
 	}
 	rt.Check(code >= 200 && code < 600, "a well-formed HTTP status is produced")
 	rt.Check(litefs.VerifSameState(before, litefs.VerifSnapshotState(store)), "an invalid or disallowed request leaves databases, positions, transaction logs and locks unchanged")
-	isRead := (path == "/export" && method == "GET" && name == "name=db") || (path == "/info" && method == "GET")
+	isRead := (path == "/export" && method == "GET" && name == "name=db") || (path == "/info" && method == "GET") || (path == "/events" && method == "GET")
 	if !isRead {
 		rt.Check(code >= 400, "an invalid or disallowed request is answered with an error status")
 	} else {
